@@ -51,7 +51,9 @@ def cases(draw):
         target_file = "main_mod.py"
     muts = draw(st.lists(st.sampled_from(["crlf", "cr", "no_final_nl", "tabs", "comments", "blank_before", "header", "none"]), min_size=0, max_size=3, unique=True))
     picks = draw(st.lists(st.integers(0, 10 ** 6), min_size=16, max_size=16))
-    return {"kind": kind, "files": files, "target": target_file, "muts": muts, "picks": picks, "apply": draw(st.booleans())}
+    return {"kind": kind, "files": files, "target": target_file, "muts": muts, "picks": picks, "apply": draw(st.booleans()),
+            # an unsaved buffer (path=None) inside the project: results then hold None next to real paths
+            "no_path": draw(st.integers(0, 3)) == 0}
 
 
 def mutate_layout(text, muts, seed):
@@ -181,7 +183,7 @@ def run_case(ctx, case):
             where = "%s at (%d,%d) %s in %s %s" % (opname, l, c, what, tgt, case["muts"])
             ctx.count()
             try:
-                s = boot.fresh_script(text, path=str(path), project=project)
+                s = boot.fresh_script(text, path=None if case.get("no_path") else str(path), project=project)
                 r = getattr(s, opname)(l, c, **kw)
                 diff = r.get_diff()
                 changed = r.get_changed_files()
@@ -215,7 +217,7 @@ def run_case(ctx, case):
             except refac.DiffError as e:
                 devs.append(("diff-not-well-formed:" + opname, where + " %s" % e))
                 continue
-            rel = lambda p: str(Path(p).relative_to(root)) if str(p).startswith(str(root)) else str(p)
+            rel = lambda p: "" if p is None else str(Path(p).relative_to(root)) if str(p).startswith(str(root)) else str(p)
             want_files = sorted(rel(p) for p in changed)
             got_files = sorted(f["from"] for f in d_files)
             if want_files != got_files:
@@ -273,6 +275,9 @@ def run_case(ctx, case):
                 # harness safety: a refactoring that reaches files outside the scratch project (a renamed stdlib module
                 # would be moved for real) is inspected but never applied
                 ctx.cls("not-applied:touches-files-outside-the-scratch-project")
+            elif None in changed:
+                # apply() refuses path-less buffers with RefactoringError by design
+                ctx.cls("not-applied:path-less-buffer-among-the-changed-files")
             elif case["apply"] and picks.pop() % 3 == 0:
                 expected = dict(before)
                 for p, new_code in new_codes.items():
@@ -291,7 +296,7 @@ def run_case(ctx, case):
                 if after != expected:
                     bad = sorted(k for k in set(after) | set(expected) if after.get(k) != expected.get(k))
                     devs.append(("disk-after-apply-differs-from-announcement:" + opname, where + " differing %s" % bad[:5]))
-    ctx.cls("kind:" + case["kind"])
+    ctx.cls("kind:" + case["kind"], "buffer:" + ("path-less" if case.get("no_path") else "with-path"))
     for m_ in case["muts"] or ["plain"]:
         ctx.cls("layout:" + m_)
     ctx.sample({"kind": case["kind"], "target": tgt, "layout": case["muts"], "operations": [(o[0], o[1], o[3]) for o in ops[:6]]}, limit=3)
